@@ -87,7 +87,7 @@ class RIRecord(RMATSRecord):
                 exon_end = int(exon.location.end)
 
                 if exon_start < self.upstream_exon_end \
-                        < self.downstream_exon_start < exon_end - 1:
+                        < self.downstream_exon_start < exon_end:
                     retained_in_ref.append(tx_id)
                 exon = next(it, None)
 
